@@ -27,7 +27,7 @@ def cases(tier, rng, run):
         if i % 2 == 0:
             out.append(Case(c.ctx_line(), "ctx", {"ctx": c}))
         else:
-            out.append(Case(c.call_line("func", rng.choice(["pos", "kw"])), "call", {"ctx": c}))
+            out.append(Case(c.rand_call(rng, styles=("pos", "kw", "kwonly", "posonly")), "call", {"ctx": c}))
     # arithmetic faults (F7)
     for _ in range(600 if tier == "quick" else 6000):
         a, b = rng.choice([0, 1, 2, 3]), rng.choice([0, 1, 2, 3])
